@@ -5,7 +5,7 @@
    (atoms of one element per mole, tiled over the phases) or [w] itself (mass).
    [weights o w a] is that functional expressed on the quantity the object acts on (a/w on a weight
    basis), [buffer o w mol] that quantity (mass flows on a weight basis).  [balanced a r]: a . S_r = 0. *)
-From V Require Import Common.NumFacts C05.Model C05.Proofs C05.Proofs2.
+From V Require Import Common.NumFacts C05.Model C05.Proofs C05.Proofs2 C05.Proofs3.
 
 (* atoms_conserved / mass_conserved for streams, any object (reaction, parallel, series, system),
    either basis, phase-less or phase-tagged: exact when the clamp did not fire, and always within
@@ -463,3 +463,22 @@ Theorem C05_conversion_balanced : forall o m c a,
   conv_obj o m = Ok c -> vdot a c == 0.
 Proof. exact conversion_balanced. Qed.
 Print Assumptions C05_conversion_balanced.
+
+(* nested reaction systems: a tree of ReactionSystem objects all of whose nodes carry the basis b acts exactly like the
+   flat ReactionSystem of its leaves in order, in _reaction, in the feasibility step and on streams of either basis;
+   every theorem above about System objects (conservation, non-negativity, basis equivalence, thresholds) therefore
+   holds for nested systems *)
+Theorem C05_nested_refines : forall w b t mol v, nconsb b t = true ->
+  nreact t v = react_parts b (nflatten t) v /\
+  nprocess t v = process (System b (nflatten t)) v /\
+  ncall_stream w t mol = call_stream w (System b (nflatten t)) mol.
+Proof.
+  intros w b t mol v C. split; [apply nreact_flat; exact C|]. apply (nested_refines_lemma w b t mol v C).
+Qed.
+Print Assumptions C05_nested_refines.
+
+Example C05_nonvacuous_nested :
+  let t := NSys false [NSys false [NSet false (Single exR); NSet false (Parallel [exR])]; NSet false (Single exR)] in
+  nconsb false t = true /\ nflatten t = [(false, Single exR); (false, Parallel [exR]); (false, Single exR)] /\
+  fst (ncall_stream exW t exMol) = None.
+Proof. vm_compute. repeat split. Qed.
